@@ -149,7 +149,10 @@ theorem mem_cutAtEmpty (N : Nat) (e : Ev) : ∀ l : List Ev, e ∈ cutAtEmpty N 
     | am lo hi =>
       simp only [cutAtEmpty] at h
       split at h
-      · simp only [List.mem_cons, List.not_mem_nil, or_false] at h; simp [h]
+      · simp only [List.mem_cons] at h
+        rcases h with h | h
+        · simp [h]
+        · exact List.mem_cons_of_mem _ (List.mem_of_mem_take h)
       · simp only [List.mem_cons] at h
         rcases h with h | h
         · simp [h]
